@@ -183,6 +183,31 @@ class P:
             out.append(line)
         return out
 
+    def extra(self, tier, rng, known):
+        """the same pipelines with 8 workers under the Go race detector: two workers that touch the same memory while they
+        process different datagrams (a shared scratch buffer, a shared cache without a lock) are reported whatever the schedule"""
+        if self.id != "C12":
+            return {"violations": [], "coverage": {}}
+        ok, out = vf.build_race_driver()
+        if not ok:
+            return {"violations": [{"cases": [], "no_failing_input": True, "verdict": "race-detector build of the pipeline driver failed: " + out[-300:]}], "coverage": {}}
+        picks = {}
+        for l, c in self.cj.items():
+            if len(c["dgrams"]) <= 400:
+                picks.setdefault((c["proto"], bool(c["mirror"])), (l, c))
+        cases = [dict(c, workers=8, procs=0) for _, c in picks.values()]
+        if tier != "quick":
+            cases += [dict(c, workers=8, procs=0) for l, c in list(self.cj.items())[:60] if len(c["dgrams"]) <= 400]
+        res = vf.run_driver(cases, timeout=900, race=True)
+        viol = []
+        for c, r in zip(cases, res):
+            if "DATA RACE" in (r.get("error") or ""):
+                viol.append({"cases": [json.dumps(c)[:20000]], "verdict": "8 %s workers processing different datagrams access the same memory without synchronisation (Go race detector): what is "
+                             "published for one datagram can depend on another that is processed at the same time: %s" % (c["proto"], r["error"][-800:])})
+                break
+        return {"violations": viol, "coverage": {"race_detector_pipeline_cases": len(cases)},
+                "notes": ["%d pipeline cases re-run with 8 workers under the race detector" % len(cases)]}
+
     def run_impl(self, lines):
         res = vf.run_driver([self.cj[l] for l in lines], timeout=1800)
         out = []
